@@ -480,6 +480,7 @@ type Lexer struct {
 
 func (lx *Lexer) Lex(lval *yySymType) int {
 	lx.PrevTokenType = lx.Token.Type
+	line := lx.scanner.Pos.Line
 	tok, err := lx.scanner.Scan(lx)
 	if err != nil {
 		panic(err)
@@ -487,6 +488,7 @@ func (lx *Lexer) Lex(lval *yySymType) int {
 	if tok.Type < 0 {
 		return 0
 	}
+	tok.NewLine = tok.Pos.Line != line
 	lval.token = tok
 	lx.Token = tok
 	return int(tok.Type)
